@@ -419,7 +419,21 @@ class _Typer:
                 if isinstance(k, tuple) and k[0] == "TUPLE":
                     args.extend(k[1])
                 elif isinstance(k, tuple) and k[0] == "LIST":
-                    args.extend([k[1], k[1]] if f_short(e) in ("cross", "dot") else [k[1]])
+                    if f_short(e) in ("cross", "dot"):
+                        args.extend([k[1], k[1]])
+                    else:
+                        # as many members as the callee has parameters left (a repository function called with *list)
+                        want = 1
+                        try:
+                            callee, recv = self._resolve(e)
+                            if callee is not None:
+                                ps = [a.arg for a in callee.node.args.args]
+                                if ps and ps[0] == "self":
+                                    ps = ps[1:]
+                                want = max(1, len(ps) - len(args) - (len(e.args) - 1 - e.args.index(a)))
+                        except Exception:
+                            want = 1
+                        args.extend([k[1]] * want)
                 else:
                     args.append(UNK)
             else:
